@@ -17,6 +17,8 @@ func init() {
 			ps := []core.Part{{Name: "virtual-time", Bin: "plain", Batches: 1, TimeoutS: 1800}}
 			if tier == "thorough" {
 				ps = append(ps, core.Part{Name: "real-time", Bin: "race", Batches: 1, TimeoutS: 600})
+			} else {
+				ps = append(ps, core.Part{Name: "real-time-short", Bin: "plain", Batches: 1, TimeoutS: 300})
 			}
 			return ps
 		},
@@ -25,7 +27,7 @@ func init() {
 			"R-reasm timer rules: re-request on inbound data when idle >= 5 s since the last packet or last re-request; expiry at >= 60 s since packet 1, applied before the packets of the read that notices it",
 			"idle times are kept >= 400 ms away from the 5 s / 60 s thresholds so that microseconds of real execution time cannot flip a verdict",
 		},
-	}, map[string]Worker{"virtual-time": c14Worker, "real-time": c14RealTime})
+	}, map[string]Worker{"virtual-time": c14Worker, "real-time": c14RealTime, "real-time-short": c14RealTimeShort})
 }
 
 func c14Worker(c *core.Collector, x *Ctx) {
